@@ -3,6 +3,7 @@
    centre-of-geometry fit term)  ->  component kernels (directional derivative)  ->  chain rule. *)
 From Coq Require Import ZArith List Bool Reals Lra Lia Psatz.
 From Coquelicot Require Import Coquelicot.
+From Flocq Require Import Core.Raux.
 From CV Require Import Base.Num Base.RNum C18.ValueModel C06.RestraintModel C06.RestraintProofs C01.ForceModel.
 From CV Require C18.ValueProofs.
 Import ListNotations.
@@ -840,6 +841,64 @@ Definition plain (pbc : bool) (cell : option V3) : Prop := cell = None \/ pbc = 
 Lemma pdist_plain pbc cell (p1 p2 : V3) : plain pbc cell -> pdist Rops pbc cell p1 p2 = v3sub Rops p2 p1.
 Proof. intros [->| ->]; [apply pdist_nocell|apply pdist_nopbc]. Qed.
 
+Lemma line_zero (p e : V3) : v3add Rops p (v3scale Rops 0 e) = p.
+Proof. apply v3_ext. intros j. rewrite vget_add, vget_scale. ring. Qed.
+
+Lemma com_curve (gs : list GD) n Ds i t : gds_wf gs n -> (i < n)%nat ->
+  gd_com Rops (gnth (move_gs gs t Ds) i) = v3add Rops (gd_com Rops (gnth gs i)) (v3scale Rops t (comdir (gnth gs i) (nth i Ds []))).
+Proof. intros Hwf Hi. rewrite gnth_move. apply gd_com_move. apply (gds_wf_nth gs n i Hwf Hi). Qed.
+
+(* ------------------------------------------------------------------ minimum image in an orthorhombic cell: locally a constant lattice shift *)
+Lemma min_image1_pdiff L d : min_image1 Rops L d = ValueModel.pdiff Rops L d.
+Proof. reflexivity. Qed.
+
+Definition cut_free1 (L d : R) : Prop := 0 < L /\ - L / 2 < min_image1 Rops L d.
+
+Lemma min_image1_loc L d e : cut_free1 L d ->
+  locally 0 (fun t => min_image1 Rops L (d + t * e) = min_image1 Rops L d + t * e).
+Proof.
+  intros [HL Hlo]. rewrite !min_image1_pdiff in *.
+  pose proof (CV.C18.ValueProofs.pdiff_range L d HL) as [_ Hhi].
+  set (r0 := ValueModel.pdiff Rops L d) in *.
+  set (n0 := Zfloor (d / L + 1 / 2)).
+  assert (Er : r0 = d - IZR n0 * L) by (unfold r0, n0; apply CV.C18.ValueProofs.pdiff_eq).
+  set (eps := Rmin (r0 + L / 2) (L / 2 - r0)).
+  assert (Heps : 0 < eps) by (unfold eps; apply Rmin_pos; lra).
+  assert (Hd : 0 < eps / (Rabs e + 1)) by (apply Rdiv_lt_0_compat; [exact Heps|pose proof (Rabs_pos e); lra]).
+  exists (mkposreal _ Hd). intros t Ht.
+  unfold ball in Ht; simpl in Ht; unfold AbsRing_ball, abs, minus, plus, opp in Ht; simpl in Ht.
+  rewrite Ropp_0, Rplus_0_r in Ht.
+  assert (Hte : Rabs (t * e) < eps).
+  { rewrite Rabs_mult. pose proof (Rabs_pos e) as He. pose proof (Rabs_pos t) as Htp.
+    assert (Rabs t * (Rabs e + 1) < eps) by (apply (Rmult_lt_reg_r (/ (Rabs e + 1))); [apply Rinv_0_lt_compat; lra|];
+      rewrite Rmult_assoc, Rinv_r by lra; rewrite Rmult_1_r; exact Ht).
+    nra. }
+  apply Rabs_def2 in Hte. destruct Hte as [Ht1 Ht2].
+  pose proof (Rmin_l (r0 + L / 2) (L / 2 - r0)). pose proof (Rmin_r (r0 + L / 2) (L / 2 - r0)). fold eps in H, H0.
+  rewrite min_image1_pdiff. apply (CV.C18.ValueProofs.pdiff_unique L (d + t * e) (r0 + t * e) n0 HL); lra.
+Qed.
+
+(* the minimum-image convention does not enter, or no component of the difference sits on a cut of the cell *)
+Definition image_ok (pbc : bool) (cell : option V3) (a b : V3) : Prop :=
+  plain pbc cell \/
+  exists lx ly lz, cell = Some (lx, ly, lz) /\ pbc = true /\
+    cut_free1 lx (vget AX (v3sub Rops b a)) /\ cut_free1 ly (vget AY (v3sub Rops b a)) /\ cut_free1 lz (vget AZ (v3sub Rops b a)).
+
+Lemma pdist_line_loc pbc cell (c1 c2 E1 E2 : V3) : image_ok pbc cell c1 c2 ->
+  locally 0 (fun t => pdist Rops pbc cell (v3add Rops c1 (v3scale Rops t E1)) (v3add Rops c2 (v3scale Rops t E2))
+                      = v3add Rops (pdist Rops pbc cell c1 c2) (v3scale Rops t (v3sub Rops E2 E1))).
+Proof.
+  intros [Hpl|(lx & ly & lz & -> & -> & Cx & Cy & Cz)].
+  - apply filter_forall. intros t. rewrite !pdist_plain by exact Hpl. apply line_sub.
+  - pose proof (min_image1_loc lx _ (vget AX (v3sub Rops E2 E1)) Cx) as Lx.
+    pose proof (min_image1_loc ly _ (vget AY (v3sub Rops E2 E1)) Cy) as Ly.
+    pose proof (min_image1_loc lz _ (vget AZ (v3sub Rops E2 E1)) Cz) as Lz.
+    generalize (filter_and _ _ Lx (filter_and _ _ Ly Lz)). apply filter_imp. intros t (Hx & Hy & Hz).
+    unfold pdist. cbn [position_distance]. rewrite (line_sub c1 c2 E1 E2 t).
+    destruct (v3sub Rops c2 c1) as [[dx dy] dz] eqn:Ed. destruct (v3sub Rops E2 E1) as [[ex ey] ez] eqn:Ee.
+    cbn [vget] in Hx, Hy, Hz. unfold v3add, v3scale. cbn [nadd nmul Rops]. rewrite Hx, Hy, Hz. reflexivity.
+Qed.
+
 Lemma dot_lists_2 (a b : list V3) Ds : dot_lists [a; b] Ds = dot_list a (nth 0 Ds []) + dot_list b (nth 1 Ds []).
 Proof.
   destruct Ds as [|D0 [|D1 Ds']]; cbn [dot_lists nth].
@@ -871,40 +930,44 @@ Proof. rewrite !v3dot_get, !vget_sub. ring. Qed.
 Lemma v3dot_scale_l s (a b : V3) : v3dot Rops (v3scale Rops s a) b = s * v3dot Rops a b.
 Proof. rewrite !v3dot_get, !vget_scale. ring. Qed.
 
-Lemma dir_correct_distance pbc cell (gs : list GD) : gds_wf gs 2 -> plain pbc cell ->
-  v3norm2 Rops (v3sub Rops (gd_com Rops (gnth gs 1)) (gd_com Rops (gnth gs 0))) <> 0 ->
+Lemma dir_correct_distance pbc cell (gs : list GD) : gds_wf gs 2 ->
+  image_ok pbc cell (gd_com Rops (gnth gs 0)) (gd_com Rops (gnth gs 1)) ->
+  v3norm2 Rops (pdist Rops pbc cell (gd_com Rops (gnth gs 0)) (gd_com Rops (gnth gs 1))) <> 0 ->
   dir_correct (k_distance Rops pbc cell) gs.
 Proof.
-  intros Hwf Hpl Hne.
+  intros Hwf Himg Hne.
   pose proof (gds_wf_nth gs 2 0 Hwf ltac:(lia)) as W0. pose proof (gds_wf_nth gs 2 1 Hwf ltac:(lia)) as W1.
   split.
   - unfold k_distance. cbn [snd]. apply (shape_2 (gnth gs 0) (gnth gs 1)); [apply gds_2; exact Hwf| |]; apply wgrad_length.
   - intros Ds _. unfold k_distance. cbn [fst snd]. rewrite dot_lists_2, !wgrad_dot by assumption.
-    rewrite !pdist_plain by exact Hpl.
-    apply (is_derive_ext (fun t => vnorm Rops (v3add Rops (v3sub Rops (gd_com Rops (gnth gs 1)) (gd_com Rops (gnth gs 0)))
-                                                (v3scale Rops t (v3sub Rops (comdir (gnth gs 1) (nth 1 Ds [])) (comdir (gnth gs 0) (nth 0 Ds []))))))).
-    + intros t. rewrite !gnth_move, !pdist_plain by exact Hpl. rewrite !gd_com_move by assumption. rewrite line_sub. reflexivity.
+    set (d0 := pdist Rops pbc cell (gd_com Rops (gnth gs 0)) (gd_com Rops (gnth gs 1))) in *.
+    apply (is_derive_ext_loc (fun t => vnorm Rops (v3add Rops d0
+             (v3scale Rops t (v3sub Rops (comdir (gnth gs 1) (nth 1 Ds [])) (comdir (gnth gs 0) (nth 0 Ds []))))))).
+    + generalize (pdist_line_loc pbc cell _ _ (comdir (gnth gs 0) (nth 0 Ds [])) (comdir (gnth gs 1) (nth 1 Ds [])) Himg).
+      apply filter_imp. intros t Ht. rewrite !(com_curve gs 2 Ds _ t Hwf) by lia. rewrite Ht. reflexivity.
     + evar_last; [apply norm_dir; exact Hne|]. rewrite v3dot_neg_l, v3dot_sub_r. ring.
 Qed.
 
 (* ---- distanceZ, fixed axis ---- *)
-Lemma dir_correct_distance_z pbc cell ax (gs : list GD) : gds_wf gs 2 -> plain pbc cell ->
+Lemma dir_correct_distance_z pbc cell ax (gs : list GD) : gds_wf gs 2 ->
+  image_ok pbc cell (gd_com Rops (gnth gs 1)) (gd_com Rops (gnth gs 0)) ->
   dir_correct (k_distance_z Rops pbc cell ax) gs.
 Proof.
-  intros Hwf Hpl.
+  intros Hwf Himg.
   pose proof (gds_wf_nth gs 2 0 Hwf ltac:(lia)) as W0. pose proof (gds_wf_nth gs 2 1 Hwf ltac:(lia)) as W1.
   split.
   - unfold k_distance_z. cbn [snd]. apply (shape_2 (gnth gs 0) (gnth gs 1)); [apply gds_2; exact Hwf| |]; apply wgrad_length.
   - intros Ds _. unfold k_distance_z. cbn [fst snd]. rewrite dot_lists_2, !wgrad_dot by assumption.
-    apply (is_derive_ext (fun t => v3dot Rops ax (v3add Rops (v3sub Rops (gd_com Rops (gnth gs 0)) (gd_com Rops (gnth gs 1)))
-                                                (v3scale Rops t (v3sub Rops (comdir (gnth gs 0) (nth 0 Ds [])) (comdir (gnth gs 1) (nth 1 Ds []))))))).
-    + intros t. rewrite !gnth_move, !pdist_plain by exact Hpl. rewrite !gd_com_move by assumption. rewrite line_sub. reflexivity.
+    set (d0 := pdist Rops pbc cell (gd_com Rops (gnth gs 1)) (gd_com Rops (gnth gs 0))) in *.
+    apply (is_derive_ext_loc (fun t => v3dot Rops ax (v3add Rops d0
+             (v3scale Rops t (v3sub Rops (comdir (gnth gs 0) (nth 0 Ds [])) (comdir (gnth gs 1) (nth 1 Ds []))))))).
+    + generalize (pdist_line_loc pbc cell _ _ (comdir (gnth gs 1) (nth 1 Ds [])) (comdir (gnth gs 0) (nth 0 Ds [])) Himg).
+      apply filter_imp. intros t Ht. rewrite !(com_curve gs 2 Ds _ t Hwf) by lia. rewrite Ht. reflexivity.
     + rewrite v3dot_neg_l.
-      destruct ax as [[ax ay] az], (v3sub Rops (gd_com Rops (gnth gs 0)) (gd_com Rops (gnth gs 1))) as [[dx dy] dz],
+      destruct ax as [[ax ay] az], d0 as [[dx dy] dz],
                (comdir (gnth gs 0) (nth 0 Ds [])) as [[ex ey] ez], (comdir (gnth gs 1) (nth 1 Ds [])) as [[fx fy] fz].
       unfold v3dot, v3add, v3scale, v3sub. cbn [nadd nsub nmul Rops]. auto_derive; [exact I|ring].
 Qed.
-
 
 (* ---- distanceXY, fixed (unit) axis ---- *)
 Lemma Reqb_false a b : a <> b -> Reqb' a b = false.
@@ -926,13 +989,14 @@ Proof.
   rewrite H. ring.
 Qed.
 
-Lemma dir_correct_distance_xy pbc cell ax (gs : list GD) : gds_wf gs 2 -> plain pbc cell -> v3norm2 Rops ax = 1 ->
-  v3norm2 Rops (vperp (v3sub Rops (gd_com Rops (gnth gs 0)) (gd_com Rops (gnth gs 1))) ax) <> 0 ->
+Lemma dir_correct_distance_xy pbc cell ax (gs : list GD) : gds_wf gs 2 ->
+  image_ok pbc cell (gd_com Rops (gnth gs 1)) (gd_com Rops (gnth gs 0)) -> v3norm2 Rops ax = 1 ->
+  v3norm2 Rops (vperp (pdist Rops pbc cell (gd_com Rops (gnth gs 1)) (gd_com Rops (gnth gs 0))) ax) <> 0 ->
   dir_correct (k_distance_xy Rops pbc cell ax) gs.
 Proof.
-  intros Hwf Hpl Hax Hne.
+  intros Hwf Himg Hax Hne.
   pose proof (gds_wf_nth gs 2 0 Hwf ltac:(lia)) as W0. pose proof (gds_wf_nth gs 2 1 Hwf ltac:(lia)) as W1.
-  set (d0 := v3sub Rops (gd_com Rops (gnth gs 0)) (gd_com Rops (gnth gs 1))) in *.
+  set (d0 := pdist Rops pbc cell (gd_com Rops (gnth gs 1)) (gd_com Rops (gnth gs 0))) in *.
   pose proof (norm2_pos _ Hne) as Hpos.
   assert (Hs : sqrt (v3norm2 Rops (vperp d0 ax)) <> 0) by (apply Rgt_not_eq, sqrt_lt_R0; exact Hpos).
   assert (Ev : forall gs', fst (k_distance_xy Rops pbc cell ax gs') =
@@ -942,15 +1006,16 @@ Proof.
   assert (Eg : snd (k_distance_xy Rops pbc cell ax gs) =
            [wgrad Rops (gnth gs 0) (v3scale Rops (1 / vnorm Rops (vperp d0 ax)) (vperp d0 ax));
             wgrad Rops (gnth gs 1) (v3scale Rops (-1 * (1 / vnorm Rops (vperp d0 ax))) (vperp d0 ax))]).
-  { unfold k_distance_xy. cbv zeta. rewrite !pdist_plain by exact Hpl. fold d0. fold (vperp d0 ax).
+  { unfold k_distance_xy. cbv zeta. fold d0. fold (vperp d0 ax).
     unfold vnorm. cbn [neqb nsqrt Rops]. unfold zero. cbn [n0 Rops]. rewrite Reqb_false by exact Hs. reflexivity. }
   split.
   - rewrite Eg. apply (shape_2 (gnth gs 0) (gnth gs 1)); [apply gds_2; exact Hwf| |]; apply wgrad_length.
   - intros Ds _. rewrite Eg, dot_lists_2, !wgrad_dot by assumption.
-    apply (is_derive_ext (fun t => vnorm Rops (v3add Rops (vperp d0 ax)
+    apply (is_derive_ext_loc (fun t => vnorm Rops (v3add Rops (vperp d0 ax)
               (v3scale Rops t (vperp (v3sub Rops (comdir (gnth gs 0) (nth 0 Ds [])) (comdir (gnth gs 1) (nth 1 Ds []))) ax))))).
-    + intros t. rewrite Ev, !gnth_move, !pdist_plain by exact Hpl. rewrite !gd_com_move by assumption.
-      rewrite line_sub, vperp_line. reflexivity.
+    + generalize (pdist_line_loc pbc cell _ _ (comdir (gnth gs 1) (nth 1 Ds [])) (comdir (gnth gs 0) (nth 0 Ds [])) Himg).
+      apply filter_imp. intros t Ht. rewrite Ev. rewrite !(com_curve gs 2 Ds _ t Hwf) by lia. rewrite Ht. fold d0.
+      rewrite vperp_line. reflexivity.
     + evar_last; [apply norm_dir; exact Hne|].
       (* unit(v).(e - (e.ax) ax) = (v/x).e because v is orthogonal to the axis *)
       pose proof (vperp_orth d0 ax Hax) as Ho.
@@ -1084,32 +1149,35 @@ Lemma norm2_sub_ne (a b : V3) : a <> b -> v3norm2 Rops (v3sub Rops a b) <> 0.
 Proof. intros H E. apply H. apply (proj1 (CV.C18.ValueProofs.v3_zero_iff a b)). exact E. Qed.
 
 Lemma cvc_grad_correct_distance cell pbc co e g1 g2 (s : SYS) :
-  grp_ok s g1 -> grp_ok s g2 -> plain pbc cell ->
-  gd_com Rops (gdata_of Rops s g2) <> gd_com Rops (gdata_of Rops s g1) ->
+  grp_ok s g1 -> grp_ok s g2 ->
+  image_ok pbc cell (gd_com Rops (gdata_of Rops s g1)) (gd_com Rops (gdata_of Rops s g2)) ->
+  v3norm2 Rops (pdist Rops pbc cell (gd_com Rops (gdata_of Rops s g1)) (gd_com Rops (gdata_of Rops s g2))) <> 0 ->
   cvc_grad_correct cell (mkCvc co e (KDistance pbc) [g1; g2]) s.
 Proof.
   intros H1 H2 Hpl Hne. destruct (grp_ok_2 s g1 g2 H1 H2) as (HW & HG & HF).
   apply group_layer; cbn [c_groups c_kind keval]; [exact HW| |apply fit_ok_on; exact HF].
-  apply dir_correct_distance; [exact HG|exact Hpl|]. cbn [map]. unfold gnth. cbn [nth]. apply norm2_sub_ne. exact Hne.
+  apply dir_correct_distance; [exact HG| |]; cbn [map]; unfold gnth; cbn [nth]; assumption.
 Qed.
 
 Lemma cvc_grad_correct_distanceZ cell pbc co e ax gm gr (s : SYS) :
-  grp_ok s gm -> grp_ok s gr -> plain pbc cell ->
+  grp_ok s gm -> grp_ok s gr ->
+  image_ok pbc cell (gd_com Rops (gdata_of Rops s gr)) (gd_com Rops (gdata_of Rops s gm)) ->
   cvc_grad_correct cell (mkCvc co e (KDistanceZ pbc ax) [gm; gr]) s.
 Proof.
   intros H1 H2 Hpl. destruct (grp_ok_2 s gm gr H1 H2) as (HW & HG & HF).
   apply group_layer; cbn [c_groups c_kind keval]; [exact HW| |apply fit_ok_on; exact HF].
-  apply dir_correct_distance_z; [exact HG|exact Hpl].
+  apply dir_correct_distance_z; [exact HG|]. cbn [map]. unfold gnth. cbn [nth]. exact Hpl.
 Qed.
 
 Lemma cvc_grad_correct_distanceXY cell pbc co e ax gm gr (s : SYS) :
-  grp_ok s gm -> grp_ok s gr -> plain pbc cell -> v3norm2 Rops ax = 1 ->
-  v3norm2 Rops (vperp (v3sub Rops (gd_com Rops (gdata_of Rops s gm)) (gd_com Rops (gdata_of Rops s gr))) ax) <> 0 ->
+  grp_ok s gm -> grp_ok s gr ->
+  image_ok pbc cell (gd_com Rops (gdata_of Rops s gr)) (gd_com Rops (gdata_of Rops s gm)) -> v3norm2 Rops ax = 1 ->
+  v3norm2 Rops (vperp (pdist Rops pbc cell (gd_com Rops (gdata_of Rops s gr)) (gd_com Rops (gdata_of Rops s gm))) ax) <> 0 ->
   cvc_grad_correct cell (mkCvc co e (KDistanceXY pbc ax) [gm; gr]) s.
 Proof.
   intros H1 H2 Hpl Hax Hne. destruct (grp_ok_2 s gm gr H1 H2) as (HW & HG & HF).
   apply group_layer; cbn [c_groups c_kind keval]; [exact HW| |apply fit_ok_on; exact HF].
-  apply dir_correct_distance_xy; [exact HG|exact Hpl|exact Hax|]. cbn [map]. unfold gnth. cbn [nth]. exact Hne.
+  apply dir_correct_distance_xy; [exact HG| |exact Hax|]; cbn [map]; unfold gnth; cbn [nth]; assumption.
 Qed.
 
 (* gyration / inertia: the component centres its group on the origin itself (no fit gradients are stored: they vanish) *)
@@ -1264,12 +1332,7 @@ Proof.
 Qed.
 
 (* ------------------------------------------------------------------ more kernels *)
-Lemma line_zero (p e : V3) : v3add Rops p (v3scale Rops 0 e) = p.
-Proof. apply v3_ext. intros j. rewrite vget_add, vget_scale. ring. Qed.
 
-Lemma com_curve (gs : list GD) n Ds i t : gds_wf gs n -> (i < n)%nat ->
-  gd_com Rops (gnth (move_gs gs t Ds) i) = v3add Rops (gd_com Rops (gnth gs i)) (v3scale Rops t (comdir (gnth gs i) (nth i Ds []))).
-Proof. intros Hwf Hi. rewrite gnth_move. apply gd_com_move. apply (gds_wf_nth gs n i Hwf Hi). Qed.
 
 Lemma shape_3 (g0 g1 g2 : GD) (gs : list GD) (a b c : list V3) : gs = [g0; g1; g2] ->
   length a = length (gd_atoms g0) -> length b = length (gd_atoms g1) -> length c = length (gd_atoms g2) -> shape_ok [a; b; c] gs.
@@ -1884,11 +1947,13 @@ Definition com_of (s : SYS) (g : GRP) : V3 := gd_com Rops (gdata_of Rops s g).
 (* the documented non-singular geometries of the components proved so far *)
 Definition kind_guard (cell : option V3) (c : cvc) (s : SYS) : Prop :=
   match c_kind c, c_groups c with
-  | KDistance pbc, [g1; g2] => grp_ok s g1 /\ grp_ok s g2 /\ plain pbc cell /\ com_of s g2 <> com_of s g1
-  | KDistanceZ pbc ax, [gm; gr] => grp_ok s gm /\ grp_ok s gr /\ plain pbc cell
+  | KDistance pbc, [g1; g2] =>
+    grp_ok s g1 /\ grp_ok s g2 /\ image_ok pbc cell (com_of s g1) (com_of s g2) /\
+    v3norm2 Rops (pdist Rops pbc cell (com_of s g1) (com_of s g2)) <> 0
+  | KDistanceZ pbc ax, [gm; gr] => grp_ok s gm /\ grp_ok s gr /\ image_ok pbc cell (com_of s gr) (com_of s gm)
   | KDistanceXY pbc ax, [gm; gr] =>
-    grp_ok s gm /\ grp_ok s gr /\ plain pbc cell /\ v3norm2 Rops ax = 1 /\
-    v3norm2 Rops (vperp (v3sub Rops (com_of s gm) (com_of s gr)) ax) <> 0
+    grp_ok s gm /\ grp_ok s gr /\ image_ok pbc cell (com_of s gr) (com_of s gm) /\ v3norm2 Rops ax = 1 /\
+    v3norm2 Rops (vperp (pdist Rops pbc cell (com_of s gr) (com_of s gm)) ax) <> 0
   | KDistanceZ2 pbc, [gm; g1; g2] => grp_ok s gm /\ grp_ok s g1 /\ grp_ok s g2 /\ plain pbc cell /\ com_of s g2 <> com_of s g1
   | KDistanceXY2 pbc, [gm; g1; g2] =>
     grp_ok s gm /\ grp_ok s g1 /\ grp_ok s g2 /\ plain pbc cell /\ com_of s g2 <> com_of s g1 /\
@@ -2009,8 +2074,8 @@ Proof.
   split.
   - intros v c [<-|[]] [<-|[]]. split.
     + unfold kind_guard, ex_cvc. cbn [c_kind c_groups cf_cell ex_cf]. destruct ex_grp as [G1 G2].
-      split; [exact G1|split; [exact G2|split; [left; reflexivity|]]].
-      intros H. apply (f_equal (vget AX)) in H.
+      split; [exact G1|split; [exact G2|split; [left; left; reflexivity|]]].
+      apply norm2_sub_ne. intros H. apply (f_equal (vget AX)) in H.
       unfold com_of, gd_com, gdata_of, ex_g1, ex_g2, ex_sys, gshift, cog_of, fit_ids, gd_mass, atom_at in H.
       cbn in H. lra.
     + left. cbn. lia.
@@ -2020,4 +2085,15 @@ Proof.
       * intros a [<-|[]]. apply (T (0%nat, 1)). left; reflexivity.
       * intros iw [<-|[]]. cbn [fst snd]. repeat split; try discriminate.
         intros _. pose proof ex_value_nonneg. lra.
+Qed.
+
+(* the periodic-cell disjunct of image_ok is inhabited: (0,0,0) and (5,1,1) in a cubic cell of edge 8 (image -3,1,1) *)
+Lemma ex_image_cell : image_ok true (Some (8, 8, 8)) (0, 0, 0) (5, 1, 1) /\ ~ plain true (Some (8, 8, 8)).
+Proof.
+  split.
+  - right. exists 8, 8, 8. split; [reflexivity|]. split; [reflexivity|].
+    assert (A : min_image1 Rops 8 (5 - 0) = -3) by (rewrite min_image1_pdiff; apply (CV.C18.ValueProofs.pdiff_unique 8 (5 - 0) (-3) 1); lra).
+    assert (B : min_image1 Rops 8 (1 - 0) = 1) by (rewrite min_image1_pdiff; apply (CV.C18.ValueProofs.pdiff_unique 8 (1 - 0) 1 0); lra).
+    unfold cut_free1. cbn [vget v3sub nsub Rops]. rewrite A, B. repeat split; lra.
+  - intros [H|H]; discriminate.
 Qed.
